@@ -55,6 +55,10 @@ def ser(v):
         return {'t': 'hostfn'}
     if isinstance(v, dict) and '__class__' in v:
         return {'t': 'pyobj', 'cls': v['__class__'], 'attrs': {k: ser(x) for k, x in v['attrs'].items()}}
+    if isinstance(v, dict) and '__dict__' in v:
+        return {'t': 'pydict', 'items': {k: ser(x) for k, x in v['__dict__'].items()}}
+    if isinstance(v, dict) and '__symmap__' in v:
+        return {'t': 'symmap', 'name': v['__symmap__']}
     if isinstance(v, Err):
         return {'t': 'err', 'code': v.code}
     if isinstance(v, ForeignErr):
@@ -94,6 +98,10 @@ def deser(j):
         return api.HostFnSpec()
     if t == 'pyobj':
         return api.ObjSpec(j['cls'], {k: deser(x) for k, x in j['attrs'].items()})
+    if t == 'pydict':
+        return {'__dict__': {k: deser(x) for k, x in j['items'].items()}}
+    if t in ('symmap', 'dict'):
+        return {}
     if t == 'err':
         return api.REAL['errors'][j['code']]
     if t == 'ferr':
@@ -138,6 +146,8 @@ def _verify_one(task):
         rng = random.Random(opts['seed'])
         replays = []
         for ob in res.obligations:
+            if c.decl.get('no_native'):
+                break      # the postcondition uses ghost state (call logs ...) that only the symbolic run has: no native replay
             if ob['result'] == 'failed' and '_inputs' in ob:
                 vals = [v for _, v in ob['_inputs']]
                 try:
@@ -181,6 +191,7 @@ def crosscheck(w, c, nc, rng, n):
     rng.shuffle(samples)
     compared = 0
     mism = []
+    viol = []
     fn = c.funcref()
     tried = 0
     for vals in samples:
@@ -233,9 +244,20 @@ def crosscheck(w, c, nc, rng, n):
             continue
         compared += 1
         if not ok:
-            mism.append({'inputs': repr(vals), 'engine': 'return %r' % (pred[1],) if pred[0] == 'ret' else 'raise %s' % pred[1].cls,
-                         'cpython': repr(actual)})
-    return {'cases': tried, 'compared': compared, 'mismatches': mism[:5]}
+            # the engine's prediction (this body + the CONTRACTS of its callees) differs from CPython: either an engine defect or a
+            # callee that no longer meets its contract.  If the function's own contract fails on this input it is a violation.
+            try:
+                app, holds, detail = nc.check_guarded(vals)
+            except Exception:
+                app, holds, detail = False, True, None
+            entry = {'inputs': repr(vals)[:400], 'engine': ('return %r' % (pred[1],) if pred[0] == 'ret' else 'raise %s' % pred[1].cls)[:300],
+                     'cpython': repr(actual)[:300]}
+            if app and not holds:
+                viol.append({'inputs': [[nme, ser(v)] for nme, v in zip(nc.names, vals)],
+                             'inputs_repr': [[nme, repr(v)[:300]] for nme, v in zip(nc.names, vals)], 'detail': detail})
+            else:
+                mism.append(entry)
+    return {'cases': tried, 'compared': compared, 'mismatches': mism[:5], 'violations': viol[:3]}
 
 
 class _Skip(Exception):
@@ -382,7 +404,10 @@ def run_contracts(report, scratch, names, opts, jobs):
     known = load_known_findings()
     baseline = load_baseline()
     for r in results:
-        triage(report, r, known, baseline)
+        try:
+            triage(report, r, known, baseline)
+        except Exception:
+            report.checker_errors.append('triage of %s: %s' % (r.get('contract'), traceback.format_exc()[-1500:]))
     return results
 
 
@@ -453,7 +478,10 @@ def triage(report, r, known, baseline):
             rp = replays.get(ob['name'])
             rec['model'] = ob.get('model')
             if rp and rp['confirmed']:
-                named = {n: deser(v) for n, v in rp['inputs']}
+                try:
+                    named = {n: deser(v) for n, v in rp['inputs']}
+                except Exception:
+                    named = {}
                 kf = [f for f in known if finding_matches(f, prop, cname, named)]
                 if kf:
                     rec['result'] = 'known-finding'
@@ -479,7 +507,10 @@ def triage(report, r, known, baseline):
                            'failures': len(b['failures']), 'role': 'stand-in' if sym['status'] != 'ok' else 'cross-check of the proof'})
     bounded_viol = False
     for f in b['failures']:
-        named = {n: deser(v) for n, v in f['inputs']}
+        try:
+            named = {n: deser(v) for n, v in f['inputs']}
+        except Exception:
+            named = {}
         kf = [k for k in known if finding_matches(k, prop, cname, named)]
         if kf:
             report.known.append({'finding': kf[0], 'witness': f['inputs_repr']})
@@ -520,9 +551,16 @@ def triage(report, r, known, baseline):
             report.extra.setdefault('lost_proofs', []).append(cname)
     cc = r.get('crosscheck') or {}
     report.crosscheck['compared'] += cc.get('compared', 0)
+    for f in (cc.get('violations') or [])[:1]:
+        if not any(cname in v['what'] for v in report.violations):
+            name = '%s.crosscheck' % cname
+            path = write_replay(prop, name, {'property': prop, 'obligation': name, 'contract': cname, 'function': r['target'],
+                                             'inputs': f['inputs'], 'inputs_repr': f['inputs_repr'], 'detail': f['detail'],
+                                             'solver': 'native run of a cross-check sample'})
+            report.violations.append({'what': '%s fails for %s' % (name, f['inputs_repr']), 'replay': path, 'no_input': False})
     if cc.get('mismatches'):
         report.crosscheck['mismatches'] += len(cc['mismatches'])
-        report.checker_errors.append('cross-check mismatch in %s: %r' % (cname, cc['mismatches'][0]))
+        report.crosscheck.setdefault('details', []).append({'contract': cname, 'mismatch': cc['mismatches'][0]})
     if len(report.samples) < 6 and sym['obligations']:
         ob = sym['obligations'][0]
         report.samples.append({'obligation': '%s.%s' % (cname, ob['name']), 'kind': ob['kind'], 'result': ob['result'],
@@ -532,6 +570,9 @@ def triage(report, r, known, baseline):
 def finish(report, level_text=None):
     """ print the verdict lines, write the evidence file, return the exit code """
     prop = report.prop
+    for d in report.crosscheck.get('details', []):
+        report.checker_errors.append('cross-check: the outcome predicted from the body of %s and the contracts of its callees differs from '
+                                     'CPython (an engine defect, or a callee that no longer meets its contract): %r' % (d['contract'], d['mismatch']))
     recs = report.records
     n_ob = sum(x.get('count', 1) for x in recs)
     n_dis = sum(x.get('count', 1) for x in recs if x['result'] == 'discharged')
@@ -545,14 +586,10 @@ def finish(report, level_text=None):
     for u in report.undecided[:40]:
         print('UNDECIDED obligation=%s reason=%s' % (u['obligation'], (u['reason'] or '')[:200]))
     code = 0
-    if report.checker_errors:
+    if report.violations:
+        # a confirmed violation is reported even if some other part of the run had a checker problem (printed as a note)
         for e in report.checker_errors[:10]:
-            print('CHECKER-ERROR %s' % e[:2000])
-        code = 3
-    elif n_ob == 0:
-        print('CHECKER-ERROR no obligations were generated for %s (vacuity guard)' % prop)
-        code = 3
-    elif report.violations:
+            print('CHECKER-NOTE %s' % e[:1000].replace('\n', ' | '))
         seen = set()
         for v in report.violations:
             if v['replay'] in seen:
@@ -560,6 +597,13 @@ def finish(report, level_text=None):
             seen.add(v['replay'])
             print('VIOLATION property=%s replay=%s%s' % (prop, v['replay'], ' no-failing-input-found' if v['no_input'] else ''))
         code = 1
+    elif report.checker_errors:
+        for e in report.checker_errors[:10]:
+            print('CHECKER-ERROR %s' % e[:2000])
+        code = 3
+    elif n_ob == 0:
+        print('CHECKER-ERROR no obligations were generated for %s (vacuity guard)' % prop)
+        code = 3
     ev = {
         'property_id': prop, 'tier': report.tier, 'seed': report.seed, 'level': 'proof',
         'wall_s': round(time.time() - report.t0, 2),
